@@ -172,6 +172,24 @@ def run(ctx, rep):
             if len(stats["max_fitness"]) != n_iter or any(len(f) != pop for f in stats["fitness"]):
                 rep.problem("budget", "fit did not honour n_iter / pop_size", dict(where, generations=len(stats["max_fitness"])), "budget", True,
                             len(stats["max_fitness"]), n_iter, "C18")
+        # ---- the same targets with OTHER features (feature ablation / rescaling / permuted columns), fitted right afterwards: the reported
+        #      best training fitness is still the error of that model's own training-set predictions
+        if name in ("GeneticProgrammingRegressor", "GeneticProgrammingClassifier") and stats is not None:
+            X2 = X[:, ::-1] * 1.5 + 0.25
+            m2 = E.make(name, n_iter=n_iter, pop_size=pop, random_state=seed, **kw)
+            m2.fit(X2.copy(), y.copy())
+            rep.traces += 1
+            st2 = m2.optimizer_stats_
+            best2 = -max(float(v) for v in st2["max_fitness"])
+            if ncls:
+                enc2 = m2._label_encoder.transform(y)
+                err2 = float(categorical_crossentropy(np.eye(len(m2.classes_))[enc2].astype(np.float64), np.asarray(m2.predict_proba(X2)).astype(np.float64)))
+            else:
+                err2 = float(root_mean_square_error(y.astype(np.float64), np.asarray(m2.predict(X2)).astype(np.float64)))
+            rep.count("train-error-second-fit", (name, seed))
+            if not np.isclose(err2, best2, rtol=1e-9, atol=1e-12):
+                rep.problem("train", "second fit with the same targets and other features: the error of the training-set predictions differs from the reported best training fitness",
+                            dict(where, second_fit="X[:, ::-1] * 1.5 + 0.25, same y", tree=str(m2.tree_)), "train-error", True, err2, best2, "C18_train_error")
         # ---- a fitted model is its own: fitting ANOTHER estimator (same class or not, other label set) must not change what the
         #      earlier ones predict or which classes they report
         for (m_old, X_old, pred_old, classes_old, where_old) in earlier[-4:]:
